@@ -15,7 +15,7 @@ def scenario(n, single, slice_, lazy=(), wrap=None, fail=None, self_opt=None, sl
                 order=list(order or range(1, n + 1)), regOrder=list(reg_order or range(1, n + 1)),
                 lookups=list(lookups), seed=seed, sparse=sparse, procs=list(procs), mode=list(mode or ["normal"] * n), quiet=quiet, runners=sorted(runners),
                 rorder=[x for x in (order or range(1, n + 1)) if x in set(runners)], all=all_,
-                ilook=list(ilook or [0] * n), extra=False, plainRig=False, late=[False] * n, prewire=[[] for _ in range(n)], once=[False] * n)      # ilook[n-1] = t: the component's Init() looks component t up by name
+                ilook=list(ilook or [0] * n), extra=False, plainRig=False, late=[False] * n, prewire=[[] for _ in range(n)], once=[False] * n, unfit=False)      # ilook[n-1] = t: the component's Init() looks component t up by name
 
 
 def rand_scenario(rng, n, p_edge=0.35, p_slice=0.3, wraps=False, fails=False, lazies=False, lookups=0,
@@ -74,6 +74,8 @@ def rand_scenario(rng, n, p_edge=0.35, p_slice=0.3, wraps=False, fails=False, la
     sc["extra"] = rng.random() < 0.25      # the second public by-type collector registered as well: candidates arrive twice (fix F13 keeps the first)
     # a holder's slice point served by a user-written collector that runs after further matching (custom tag, optional): the
     # holder itself is among the candidates when the scenario lists it, only Property.Inject's own filter keeps it out
+    # substituted components may also be wired through pointer-typed points: the substitute (another type) does not fit the field
+    sc["unfit"] = any(w != "none" for w in wrap) and rng.random() < 0.4
     # single-valued fields of EAGER holders the user filled by hand before the start (with the registered raw object)
     if rng.random() < 0.3:
         for h in range(n):
